@@ -596,6 +596,42 @@ class X86Model(object):
             raise AnalysisError('_dis: operand-size statements for %s %s are outside the evaluable subset: %s' % (name, list(opc), e))
         return (None if digit else mafs[afs.size]), modr[afs.size]
 
+    def get_afs_eval(self, tok, mode_name, sib=False):
+        """x86allmncs.get_afs evaluated from its source on a ModRM table whose entry holds a displacement of kind `tok` (a token of x86_afs):
+        ('ok', bytes consumed after the ModRM/SIB byte, value) | ('raises', exception name)."""
+        import struct as _struct
+        from .consteval import Native, PyRaise, class_obj
+        from . import simpeval as SE
+        afs, arch = self.afs, self.arch
+        ga = arch.method('x86allmncs', 'get_afs')
+        data = (b'\x24' if sib else b'') + b'\xF0\xDE\xBC\x9A\x78'
+        pos = [0]
+
+        def readbs(k=1):
+            r = data[pos[0]:pos[0] + k]
+            pos[0] += k
+            return r
+        b_ = Obj('bin')
+        b_.readbs = Native(readbs)
+        entry = {afs.imm: tok, 0: 1, afs.ad: True}
+        table = [([dict(entry) for _ in range(256)] if sib else dict(entry)) for _ in range(256)]
+        me = class_obj(arch, 'x86allmncs', 'self')
+        me.db_afs = me.db_afs_16 = me.db_afs_mm = me.db_afs_xmm = table
+        st = Obj('struct')
+        st.unpack = Native(_struct.unpack)
+        scope = dict((k, v) for k, v in self.env.items() if isinstance(v, (str, int, bool, list, tuple, dict)) or v is None)
+        scope.update(SE.INT_CLASSES)
+        scope.update({'x86_afs': afs, 'struct': st})
+        try:
+            out = Evaluator(scope).call_user(ga, [me, b_, 0x04 if sib else 0x05, getattr(afs, mode_name)])
+        except PyRaise as e:
+            return ('raises', e.exc_name)
+        except NotConst as e:
+            raise AnalysisError('x86allmncs.get_afs is outside the evaluable subset: %s' % e)
+        a_ = out[1] if isinstance(out, tuple) and len(out) == 2 else None
+        val = a_.get(afs.imm) if isinstance(a_, dict) else None
+        return ('ok', pos[0] - (1 if sib else 0), val)
+
     def im_fmt_table(self):
         """get_im_fmt evaluated from its source on se x w8 x mode x {imm, ims}: {(se, w8, mode, kind): (size, fmt, type) | 'raises:<Exc>'}."""
         if getattr(self, '_im_fmt', None) is None:
